@@ -313,13 +313,37 @@ Definition chain_tip_height (q : queue) : option Z :=
   | x :: r => Some (hsub (fold_right (fun y a => Z.max (re y) a) (re x) r) 1)
   end.
 
+(** [rewind_to_chain_state(target)] (also the tail of add_account): truncation inside the pruning
+    window, then a forced Historic rescan range from the target up to the chain tip the queue had.
+    [floor] is the lowest tree checkpoint at or above max(target, max_scanned - 99) (read back by
+    the harness; None = no such checkpoint). Targets below every account birthday with an empty
+    reset set (RewindBeyondBirthdays) are outside the model. *)
+Definition rewind_to_chain_state (c : ctx) (q : queue) (target : Z) (floor : option Z) : qres queue :=
+  let chain_tip := chain_tip_height q in
+  let q1 := match max_scanned c with
+            | Some ms =>
+                if target <? ms then
+                  trim_scan_queue_to q (match floor with Some f => f | None => hsub ms (PRUNING_DEPTH - 1) end)
+                else q
+            | None => q
+            end in
+  match chain_tip with
+  | Some t =>
+      if target <? t then
+        do r <- of_opt (from_parts (hadd target 1) (hadd t 1) Historic);
+        replace_queue_entries q1 (hadd target 1) (hadd t 1) [r] true
+      else Ok q1
+  | None => Ok q1
+  end.
+
 (** ** operations as data (harness protocol) *)
 Inductive qop : Set :=
 | OpTip (new_tip : Z)
 | OpScan (s e : Z) (sap orc iro : list Z)
 | OpRescan (ranges : list (Z * Z)) (p : prio)
 | OpTrim (max_height : Z)
-| OpPrune (height : Z) (retain : option prio).
+| OpPrune (height : Z) (retain : option prio)
+| OpRewind (target : Z) (floor : option Z).
 
 Definition apply_op (c : ctx) (q : queue) (o : qop) : qres queue :=
   match o with
@@ -328,4 +352,5 @@ Definition apply_op (c : ctx) (q : queue) (o : qop) : qres queue :=
   | OpRescan rs_ p => queue_rescans q rs_ p
   | OpTrim h => Ok (trim_scan_queue_to q h)
   | OpPrune h r => prune_scan_queue_below q h r
+  | OpRewind t f => rewind_to_chain_state c q t f
   end.
